@@ -100,6 +100,19 @@ static void gen_family(int fam, size_t n, uint8_t* o) {
 }
 /* de Bruijn sequence B(16,4): 65536 symbols over 16 letters, every 4-gram once */
 static int db_a[64]; static size_t db_n; static uint8_t* db_out;
+static uint8_t g_dbs[65536 + 8];
+static void db(int t, int p);
+static void dbs_init(void) { db_out = g_dbs; db_n = 0; memset(db_a, 0, sizeof db_a); db(1, 1); }
+/* literal-run family: L bytes without a repeated 4-gram, then a repeat of the first m bytes (a match at distance exactly L), then 12 fresh literals */
+static const int LRM_ML[] = { 4, 5, 8, 11, 12, 18, 19, 20, 60, 64, 65, 66, 67, 68, 69, 128, 129, 130, 131, 132, 273, 274, 275 };
+#define LRM_NML 23
+static size_t gen_literals_match(uint8_t* o, int L, int m) {
+    size_t n = 0; for (int i = 0; i < L; i++) o[n++] = (uint8_t)(g_dbs[i % 65536] * 16 + 3 + (i >> 16) * 37);
+    for (int i = 0; i < m; i++) o[n++] = o[i];
+    for (int i = 0; i < 12; i++) o[n++] = (uint8_t)(g_dbs[30000 + i] * 16 + 5);
+    return n;
+}
+static int lrm_L(int Lx, int maxL) { return Lx <= maxL ? Lx : Lx <= maxL + 60 ? 65510 + (Lx - maxL) : 16777196 + (Lx - maxL - 60); }
 static void db(int t, int p) {
     if (t > 4) { if (4 % p == 0) for (int i = 1; i <= p; i++) db_out[db_n++] = (uint8_t)db_a[i]; }
     else { db_a[t] = db_a[t - p]; db(t + 1, p); for (int j = db_a[t - p] + 1; j < 16; j++) { db_a[t] = j; db(t + 1, t); } }
@@ -184,7 +197,7 @@ static void c09(void) {
             }
     mc_stage("c09.debruijn-and-large");
     {
-        static uint8_t dbs[65536 + 8]; db_out = dbs; db_n = 0; memset(db_a, 0, sizeof db_a); db(1, 1);
+        uint8_t* dbs = g_dbs; dbs_init();
         for (int rot = 0; rot < 64; rot++)
             for (int ext = 0; ext < 3; ext++) {
                 if (!mc_next()) continue;
@@ -197,14 +210,12 @@ static void c09(void) {
         /* L incompressible literals (no repeated 4-gram), then a repeat of the first m bytes, then 12 fresh literals: every literal-run
          * length (length-extension bytes 15, 15+255, 15+510, ...) x match lengths around the match-length extension boundaries */
         mc_stage("c09.literal-run-then-match.every-run-length");
-        { static const int ML[] = { 4, 5, 8, 18, 19, 20, 273, 274, 275 }; int maxL = 4200;
-          for (int Lx = 4; Lx <= maxL + 60 + (mc_thorough() ? 40 : 0); Lx++) for (int mi = 0; mi < 9; mi++) {
-              int L = Lx <= maxL ? Lx : Lx <= maxL + 60 ? 65510 + (Lx - maxL) : 16777196 + (Lx - maxL - 60);      /* then 65511..65570 (2-byte literal length forms end at 65536) and, thorough, 16777197..16777236 (3-byte forms end at 2^24) */
-              int m = ML[mi]; if (m > L) continue; if (Lx > maxL && mi != 0 && mi != 4) continue;
+        { int maxL = 4200;
+          for (int Lx = 4; Lx <= maxL + 60 + (mc_thorough() ? 40 : 0); Lx++) for (int mi = 0; mi < LRM_NML; mi++) {
+              int L = lrm_L(Lx, maxL);      /* then 65511..65570 (2-byte literal length forms end at 65536) and, thorough, 16777197..16777236 (3-byte forms end at 2^24) */
+              int m = LRM_ML[mi]; if (m > L) continue; if (Lx > maxL && m != 4 && m != 19 && m != 66) continue;
               if (!mc_next()) continue;
-              size_t n = 0; for (int i = 0; i < L; i++) g_big[n++] = (uint8_t)(dbs[i % 65536] * 16 + 3 + (i >> 16) * 37);
-              for (int i = 0; i < m; i++) g_big[n++] = g_big[i];
-              for (int i = 0; i < 12; i++) g_big[n++] = (uint8_t)(dbs[30000 + i] * 16 + 5);
+              size_t n = gen_literals_match(g_big, L, m);
               mc_desc("c09:literals=%d;match=%d;tail=12", L, m); mc_feature("literal-run-then-match"); mc_case_key(mc_mix(0x99, ((uint64_t)L << 16) | (uint64_t)m)); mc_nontrivial();
               run_all(g_big, n, FASTC, 2, false, false);
           } }
@@ -494,6 +505,15 @@ static void c10(void) {
                 mc_desc("c10a:wrap;n=%zu;period=%d;flip@%zu", n, p, pos); mc_case_key(mc_mix(0xa4, ((uint64_t)li << 48) | ((uint64_t)p << 32) | (uint64_t)q)); mc_nontrivial();
                 c10_carquet_output(g_big, n);
             }
+    mc_stage("c10.a.carquet-streams.literal-run-then-match.every-run-length");
+    { int maxL = 4200; dbs_init();
+      for (int Lx = 4; Lx <= maxL + 60; Lx++) for (int mi = 0; mi < LRM_NML; mi++) {
+          int L = lrm_L(Lx, maxL), m = LRM_ML[mi]; if (m > L) continue; if (Lx > maxL && m != 4 && m != 19 && m != 66) continue;
+          if (!mc_next()) continue;
+          size_t n = gen_literals_match(g_big, L, m);
+          mc_desc("c10a:literals=%d;match=%d;tail=12", L, m); mc_case_key(mc_mix(0xaa, ((uint64_t)L << 16) | (uint64_t)m)); mc_nontrivial();
+          c10_carquet_output(g_big, n);
+      } }
     mc_stage("c10.a.carquet-streams.multi-megabyte");
     { static const size_t BIG[] = { (1u << 21) - 1, 1u << 21, (1u << 21) + 1, (1u << 22) - 1, 1u << 22, (1u << 22) + 123, (5u << 20) + 123, (8u << 20) + 4096, (16u << 20) + 102400, (17u << 20) + 5 };
       for (int k = 0; k < 10; k++) for (int kind = 0; kind < 2; kind++) {
